@@ -22,6 +22,11 @@ REQUIRED_THEOREMS = [
     "TapkeeVerif.C08.hlle_prefix_update_refuted",       # regression witness of F-HLLE-CT (pre-fix recurrence)
     "TapkeeVerif.C08.hlle_cols_bijective_of_update",
     "TapkeeVerif.C08.smallest_skip_one_optimal",
+    "TapkeeVerif.C08.skipped_eigenvector_is_constant",
+    "TapkeeVerif.C08.hlle_M_eq",
+    "TapkeeVerif.C08.hlle_const_null",
+    "TapkeeVerif.C08.hlle_affine_on_flat_partial",
+    "TapkeeVerif.C08.gramSchmidt_orthogonal",
     "TapkeeVerif.C08.ltsa_affine_on_flat_partial",
 ]
 
